@@ -16,7 +16,7 @@ from . import compat
 
 compat.install()
 
-from xdsl.dialects import arith, builtin, func, scf  # noqa: E402
+from xdsl.dialects import arith, builtin, cf, func, scf  # noqa: E402
 from xdsl.dialects.builtin import IndexType, IntegerType  # noqa: E402
 from xdsl.ir import Block, BlockArgument, Operation, SSAValue  # noqa: E402
 
@@ -140,12 +140,20 @@ class Machine:
     # -- execution
     def run_function(self, name: str, args, core: Core):
         f = self.funcs[name]
-        blk = f.body.block
+        blk = f.body.blocks[0]
         if len(args) != len(blk.args):
             raise HarnessError(f"@{name}: {len(blk.args)} arguments expected, {len(args)} given")
         vals = dict(zip(blk.args, args))
-        r = yield from self.exec_block(blk, vals, core)
-        return r.values if r is not None else []
+        while True:
+            r = yield from self.exec_block(blk, vals, core)
+            if r is None:
+                return []
+            if r.kind == "br":  # unstructured control flow between the blocks of the function body
+                blk, argvals = r.values
+                for a, v in zip(blk.args, argvals):
+                    vals[a] = v
+                continue
+            return r.values
 
     def exec_block(self, block: Block, vals, core: Core):
         handlers = self.handlers
@@ -403,6 +411,18 @@ def _while(m, op, vals, core):
 @handler(func.FuncOp)
 def _funcop(m, op, vals, core):
     return None
+
+
+@handler(cf.BranchOp)
+def _br(m, op, vals, core):
+    return Return("br", (op.successor, [m.get(vals, a) for a in op.arguments]))
+
+
+@handler(cf.ConditionalBranchOp)
+def _condbr(m, op, vals, core):
+    if m.get(vals, op.cond):
+        return Return("br", (op.then_block, [m.get(vals, a) for a in op.then_arguments]))
+    return Return("br", (op.else_block, [m.get(vals, a) for a in op.else_arguments]))
 
 
 def _noop(self, *a, **k):
